@@ -349,3 +349,102 @@ Proof.
   unfold parse_tokens, fmt_tokens. rewrite (parse_top_fmt_root _ Hf Hr).
   rewrite (resolve_to_pnode e Ht). reflexivity.
 Qed.
+
+(* ---------------------------------------------------------------------------------------------- *)
+(* Text level: michelson_to_micheline on any layout of the formatter's tokens                      *)
+(* ---------------------------------------------------------------------------------------------- *)
+From PV Require Import Proofs.Lexer_proofs.
+
+Lemma strip_parens_id s :
+  (match s with c :: _ => byte_eqb c c_lparen = false | [] => True end) -> strip_parens s = s.
+Proof. destruct s as [|c r]; simpl; [reflexivity|]. intros ->. reflexivity. Qed.
+
+Lemma digit_not_lparen c : is_digit c = true -> byte_eqb c c_lparen = false.
+Proof. destruct c; intro H; try discriminate H; reflexivity. Qed.
+Lemma sigil_not_lparen c : is_sigil c = true -> byte_eqb c c_lparen = false.
+Proof. destruct c; intro H; try discriminate H; reflexivity. Qed.
+Lemma alpha_not_lparen c : is_alpha c = true -> byte_eqb c c_lparen = false.
+Proof. destruct c; intro H; try discriminate H; reflexivity. Qed.
+Lemma ws_not_lparen c : is_ws c = true -> byte_eqb c c_lparen = false.
+Proof. destruct c; intro H; try discriminate H; reflexivity. Qed.
+
+Lemma token_head t rest : wf_token t = true -> t <> TLParen ->
+  match render_token t ++ rest with c :: _ => byte_eqb c c_lparen = false | [] => True end.
+Proof.
+  intros Hw Hne. destruct t as [r|r|r|r|n| | | | |]; simpl in *; try reflexivity.
+  - unfold wf_int_raw in Hw. destruct r as [|c d]; [discriminate|]. simpl.
+    destruct (byte_eqb c c_minus) eqn:E.
+    + apply byte_eqb_spec in E. subst c. reflexivity.
+    + simpl in Hw. apply andb_true_iff in Hw. apply digit_not_lparen, Hw.
+  - unfold wf_annot in Hw. destruct (span is_sigil r) as [sg tl] eqn:E.
+    destruct (span_spec _ _ _ _ E) as (-> & Hs & _).
+    destruct sg as [|c sg]; [discriminate|]. simpl in *.
+    apply andb_true_iff in Hs. apply sigil_not_lparen, Hs.
+  - unfold wf_name in Hw. destruct n as [|c [|a tl]]; try discriminate. simpl.
+    apply andb_true_iff in Hw. apply alpha_not_lparen, Hw.
+  - contradiction.
+Qed.
+
+Lemma render_head lt final t r :
+  map snd lt = t :: r -> t <> TLParen -> wf_token t = true -> layout_ok None lt = true ->
+  match render lt final with c :: _ => byte_eqb c c_lparen = false | [] => True end.
+Proof.
+  intros Hm Hne Hw Hl. destruct lt as [|[g t'] lt]; [discriminate|].
+  simpl in Hm. injection Hm as -> _.
+  cbn [layout_ok] in Hl. apply andb_true_iff in Hl. destruct Hl as [Hl _].
+  apply andb_true_iff in Hl. destruct Hl as [Hg _].
+  cbn [render]. destruct g as [|f g].
+  - simpl. apply token_head; assumption.
+  - simpl in Hg. apply andb_true_iff in Hg. destruct Hg as [Hf _].
+    cbn [render_gap flat_map]. rewrite <- !app_assoc.
+    destruct f as [c|b|b]; simpl; [apply ws_not_lparen, Hf | reflexivity | reflexivity].
+Qed.
+
+(* michelson_to_micheline inverts micheline_to_michelson whatever the layout *)
+Lemma parse_text_render e lt final :
+  wf_expr e = true -> map snd lt = fmt_tokens e ->
+  layout_ok None lt = true -> forallb wf_filler final = true ->
+  parse_text (render lt final) = TNode e.
+Proof.
+  intros He Hm Hl Hf.
+  assert (Ht : tags_ok e = true).
+  { unfold wf_expr in He. apply andb_true_iff in He. destruct He as [He _].
+    apply andb_true_iff in He. apply He. }
+  pose proof (fmt_tokens_wf e Ht) as Hw.
+  unfold parse_text.
+  destruct (fmt_root_head (to_pnode e)) as (t & r & Eh & Hne).
+  rewrite strip_parens_id.
+  - rewrite lex_render; [| exact Hl | rewrite Hm; exact Hw | exact Hf].
+    rewrite Hm. apply parse_tokens_fmt_tokens, He.
+  - apply (render_head lt final t r); [rewrite Hm; exact Eh | exact Hne | | exact Hl].
+    unfold fmt_tokens in Hw. rewrite Eh in Hw. simpl in Hw. apply andb_true_iff in Hw. apply Hw.
+Qed.
+
+(* the canonical layouts: one space between any two tokens / no space next to brackets *)
+Definition spaced (ts : list token) : list (gap * token) :=
+  match ts with
+  | [] => []
+  | t :: r => ([], t) :: map (fun t => ([FWs c_sp], t)) r
+  end.
+
+Lemma layout_ok_spaced_tail prev r : layout_ok prev (map (fun t => ([FWs c_sp], t)) r) = true.
+Proof. revert prev. induction r as [|t r IH]; intro prev; simpl; [reflexivity | apply IH]. Qed.
+
+Lemma layout_ok_spaced ts : layout_ok None (spaced ts) = true.
+Proof. destruct ts as [|t r]; simpl; [reflexivity | apply layout_ok_spaced_tail]. Qed.
+
+Lemma map_snd_spaced ts : map snd (spaced ts) = ts.
+Proof.
+  destruct ts as [|t r]; simpl; [reflexivity|]. f_equal.
+  induction r as [|x r IH]; simpl; [reflexivity | rewrite IH; reflexivity].
+Qed.
+
+(* micheline_to_michelson(wrap=True) only adds one pair of outer parentheses: the parser strips it *)
+Lemma strip_parens_wrap s : strip_parens (c_lparen :: s ++ [c_rparen]) = s.
+Proof.
+  unfold strip_parens. change (byte_eqb c_lparen c_lparen) with true. cbv iota.
+  rewrite rev_unit. change (byte_eqb c_rparen c_rparen) with true. cbv iota. apply rev_involutive.
+Qed.
+
+Lemma parse_text_wrap s : strip_parens s = s -> parse_text (c_lparen :: s ++ [c_rparen]) = parse_text s.
+Proof. intro H. unfold parse_text. rewrite strip_parens_wrap, H. reflexivity. Qed.
